@@ -388,6 +388,7 @@ type Contract struct {
 	NoPanic  bool
 	NoPanicProps []string
 	Trusted  bool // assume-contract
+	Counts   string // ghost call counter name
 	Opaque   bool // never inline even if no ensures
 	InlineAtCallers bool
 	Body     SExpr  // pred / pure body
@@ -669,6 +670,9 @@ func ReadContractFile(path, pkgPath string) ([]*Contract, error) {
 				tgt.Notes = append(tgt.Notes, "nonblocking")
 			case "assume-contract":
 				tgt.Trusted = true
+			case "counts":
+				// every call of this function increments the ghost counter ghostCount("<name>")
+				tgt.Counts = strings.TrimSpace(rest)
 			case "opaque":
 				tgt.Opaque = true
 			case "inline-at-callers":
@@ -761,7 +765,7 @@ func ReadContractFile(path, pkgPath string) ([]*Contract, error) {
 				if err != nil {
 					return nil, fmt.Errorf("%s:%d: %v", path, l.n, err)
 				}
-				cc := &Contract{Kind: "closure", Pkg: pkgPath, ClosureKey: key, ClosureOrd: ord, File: path, Line: l.n, Name: cur.Name + "$closure[" + key + "]"}
+				cc := &Contract{Kind: "closure", Pkg: pkgPath, ClosureKey: key, ClosureOrd: ord, File: path, Line: l.n, Name: cur.Name + "$closure[" + key + "]", Props: cur.Props}
 				cur.Closures = append(cur.Closures, cc)
 				tgt, curLoop, curAt = cc, nil, nil
 			case "end-closure":
